@@ -5,7 +5,7 @@ CONSTANTS
   Dense = TRUE
   KeepStatus = FALSE
   RecheckAtApply = FALSE
-  RecheckISR = FALSE
+  RecheckISR = TRUE
   CountAll = FALSE
   InitISRs = {{"r1"}, {"r1", "r2"}, {"r1", "r2", "r3"}, {"r1", "r2", "r3", "r4"}}
   L0 = "r1"
